@@ -16,6 +16,31 @@ add("C01", "exploration",
     "bounded-exhaustive enumeration of extent vectors x coordinates on the implementation (explicit-state, probe backend + ASan)",
     "DESIGN.md 2/C01", "E1+E2")
 
+add("C14", "exploration",
+    "Exhaustive comparison of the positions returned by the real layers (over identity<size1>, public API) with independently written curve definitions: "
+    "row-major formula for every extent vector/coordinate up to the bound plus large boundary extents; Morton bit interleave for every coordinate below 2^b per axis plus a closed boundary alphabet to the full 2^floor(64/N) width, BMI2 and portable; "
+    "Hilbert bijection/origin/adjacency on every 2^k square, k<=10; under 4 build configurations whose observation digests must agree.",
+    "x86-64 with BMI2; g++12; Morton coordinates outside the exhaustive width are covered only by the boundary alphabet",
+    "bounded-exhaustive enumeration of coordinates against reference curves, on the implementation",
+    "DESIGN.md 2/C14", "E1+E3")
+add("C18", "exploration",
+    "Every input of the 8- and 16-bit domains (all pairs for ipow at 8 bit), every 32-bit input of round_pow2 in the thorough tier, boundary alphabets at 64 bit, under -O0/-O2/UBSan builds; "
+    "the sizing consequence is decided by the probe backend: for every extent vector up to the bound the converted Morton/Hilbert field's storage length exceeds every curve position looked up.",
+    "inputs above 2^(w-1) are outside the domain; 64-bit domain covered by boundary values only",
+    "exhaustive input enumeration (small widths) + boundary alphabets against a reference, on the implementation",
+    "DESIGN.md 2/C18", "E1+E2")
+add("C19", "exploration",
+    "Every extent vector with extents 0..B for dimensionality 1..5 (size_t and int tuples) plus long-axis boxes; the callback's tuples are counted per cell: exactly once each, none outside; ASan/UBSan build and NDEBUG build.",
+    "extents above the bound only through the long-axis family",
+    "bounded-exhaustive enumeration of extent vectors with a visit-count oracle, on the implementation",
+    "DESIGN.md 2/C19", "E1")
+add("C20", "exploration",
+    "One generated static_assert per sequence (sort) and per ordered pair (permutation predicate), expected values computed by an independent Python reference; the compiler evaluates the real metaprogram for every case. "
+    "Exhaustive over all sequences up to the stated length/alphabet plus a deterministic set of long / SIZE_MAX-valued sequences.",
+    "g++12 as evaluator; no random sequences",
+    "exhaustive enumeration of compile-time programs (static_assert per case) against a reference",
+    "DESIGN.md 2/C20", "E4")
+
 def main():
     props = [json.loads(l) for l in open(os.path.join(V, "properties.jsonl"))]
     checks, na = [], []
@@ -48,7 +73,7 @@ def main():
             "add_only": True,
         },
         "engines": [
-            {"name": "E1 xplore", "path": "include/vp/xplore.hpp", "serves_properties": ["C01"], "kind_free_text": "deterministic enumerators (extent vectors, coordinates, cartesian alphabets)"},
+            {"name": "E1 xplore", "path": "include/vp/xplore.hpp", "serves_properties": sorted(CHECKS), "kind_free_text": "deterministic enumerators (extent vectors, coordinates, cartesian alphabets)"},
             {"name": "E2 probe backends", "path": "include/vp/probe.hpp", "serves_properties": ["C01"], "kind_free_text": "user-defined primitive backends owning the storage cells"},
             {"name": "runner", "path": "vplib/core.py", "serves_properties": [c["property_id"] for c in checks], "kind_free_text": "rebuilds every harness from /repo's working tree on every run, runs, harvests, writes evidence, matches known findings"},
         ],
